@@ -39,7 +39,7 @@ ASSUMPTIONS = ['_RangeIterator read-ahead size is >= 1 (max_batch_size >= 1).',
 
 
 def run(ctx: Ctx):
-  for r in (r1, r2, r3, r4, r6, r7, r8, r9, r10):
+  for r in (r1, r2, r3, r4, r6, r7, r8, r9, r10, r12):
     ctx.guard(r)
   from mlmverif.props import c10
   ctx.include('R-C09-11', '"rebuilding a shard from its recorded state yields the same'
@@ -78,17 +78,19 @@ def r1(ctx: Ctx):
   end_ref = S + (k + af.K(1)) * q + af.MIN(k + af.K(1), r)
   for name, got, want in (('_start', s.start, start_ref), ('_end', s.end, end_ref)):
     try:
-      bad = af.equal_everywhere(got, want, 'k', 'r')
+      # k, r are non-negative (shard index, remainder): also split r == 0 / r >= 1,
+      # so that a term testing the remainder itself (`... if remainder else ...`) is decided
+      bad = af.equal_everywhere_nonneg(got, want, 'k', 'r')
     except af.AffUnsupported as e:
       raise AnalysisError(f'{rule}: {e}')
     if bad is None:
-      ctx.ok(rule, fi, f'{name} == {want!r} in all {len(list(af.regions()))} regions',
+      ctx.ok(rule, fi, f'{name} == {want!r} in all {len(list(af.regions()))} regions (r == 0 and r >= 1)',
              s.replace_call)
     else:
-      reg, ex, ey = bad
+      case, reg, ex, ey = bad
       ctx.fail(rule, fi, f'shard(): {name}',
                f'shard() computes {name} = {ex!r} but a balanced contiguous'
-               f' partition needs {ey!r} when r - k {_reg_str(reg)}'
+               f' partition needs {ey!r} when {case} and r - k {_reg_str(reg)}'
                ' (S=parent start, q,r=divmod(length,K), k=shard_index,'
                ' o=offset): shards overlap, leave gaps or are unbalanced',
                node=s.replace_call)
@@ -786,10 +788,105 @@ def r10(ctx: Ctx):
   ctx.floor(rule, 2, n)
 
 
+def r12(ctx: Ctx):
+  rule = 'R-C09-12'
+  ctx.rule(rule, '"slices and iterates exactly like their concatenation": in MergedSequences.slice'
+           ' every sub-sequence strictly between the first and the last one touched is read in'
+           ' full — the loop over range(first+1, last) appends a reader for each index, and a'
+           ' guard that skips one is only a test that THIS sub-sequence is empty: its own length,'
+           ' or `_seq_idxs[i+1] > _seq_idxs[i]` (the offset table starts with a leading 0, so'
+           ' entry i is where sub-sequence i starts). `_seq_idxs[i] > _seq_idxs[i-1]` tests the'
+           ' PREVIOUS sub-sequence: a non-empty one right behind an empty one is dropped')
+  fi = ctx.repo.func('utils.iter_utils', 'MergedSequences.slice')
+  loops = [l for l in walk_no_nested(fi.node) if isinstance(l, ast.For) and isinstance(l.target, ast.Name)
+           and isinstance(l.iter, ast.Call) and unparse(l.iter.func) == 'range' and any(
+               isinstance(c, ast.Call) and isinstance(c.func, ast.Attribute) and c.func.attr == 'append'
+               for c in ast.walk(l))]
+  if len(loops) != 1:
+    raise AnalysisError(f'{rule}: expected one loop over the middle sub-sequences in MergedSequences.slice')
+  lp = loops[0]
+  iv = lp.target.id
+  from mlmverif.core import parent_map
+  pm = parent_map(lp)
+  apps = [c for c in ast.walk(lp) if isinstance(c, ast.Call) and isinstance(c.func, ast.Attribute) and c.func.attr == 'append']
+  n = 0
+  for a in apps:
+    n += 1
+    guards = []
+    q = pm.get(a)
+    while q is not None and q is not lp:
+      if isinstance(q, ast.If):
+        guards.append(q.test)
+      q = pm.get(q)
+    reads_i = any(isinstance(y, ast.Name) and y.id == iv for x_ in a.args for y in ast.walk(x_))
+    if not reads_i:
+      ctx.fail(rule, fi, 'MergedSequences.slice: the middle loop reads sub-sequence i', f'`{unparse(a)[:60]}` does not'
+               ' read the sub-sequence of the loop index', node=a)
+      continue
+    bad = None
+    for t in guards:
+      if not _tests_own_emptiness(t, iv):
+        bad = t
+    if bad is not None:
+      ctx.fail(rule, fi, 'MergedSequences.slice: a middle sub-sequence is skipped only when IT is empty',
+               f'the reader of sub-sequence `{iv}` is only appended under `{unparse(bad)[:60]}`, which is not a test'
+               f' that sub-sequence {iv} itself is empty (with the leading 0 of the offset table that would be'
+               f' `_seq_idxs[{iv} + 1] > _seq_idxs[{iv}]`): a non-empty sub-sequence that follows an empty one'
+               ' is dropped from slices and iteration', node=bad)
+    else:
+      ctx.ok(rule, fi, 'every middle sub-sequence gets a reader' + (' (guard: own emptiness)' if guards else ''), a)
+  ctx.floor(rule, 1, n)
+
+
+def _tests_own_emptiness(t: ast.AST, iv: str) -> bool:
+  """Is `t` true exactly when sub-sequence `iv` is non-empty?"""
+  def offs(e):
+    # e is `<iv> + c` / `<iv> - c` / `<iv>`: return c
+    if isinstance(e, ast.Name) and e.id == iv:
+      return 0
+    if isinstance(e, ast.BinOp) and isinstance(e.op, (ast.Add, ast.Sub)):
+      l, r_ = e.left, e.right
+      if isinstance(l, ast.Name) and l.id == iv and isinstance(r_, ast.Constant) and isinstance(r_.value, int):
+        return r_.value if isinstance(e.op, ast.Add) else -r_.value
+      if isinstance(r_, ast.Name) and r_.id == iv and isinstance(l, ast.Constant) and isinstance(e.op, ast.Add):
+        return l.value
+    return None
+  if isinstance(t, ast.Compare) and len(t.ops) == 1 and isinstance(t.ops[0], (ast.Gt, ast.Lt, ast.NotEq)):
+    a, b = t.left, t.comparators[0]
+    if all(isinstance(x, ast.Subscript) and unparse(x.value).endswith('_seq_idxs') for x in (a, b)):
+      oa, ob = offs(a.slice), offs(b.slice)
+      if oa is None or ob is None:
+        return False
+      hi, lo = (oa, ob) if isinstance(t.ops[0], ast.Gt) else (ob, oa)
+      if isinstance(t.ops[0], ast.NotEq):
+        return {oa, ob} == {0, 1}
+      return hi == 1 and lo == 0
+  # len(self._sequences[i]) / len(...) > 0 / truthiness of the sub-sequence itself
+  txt = unparse(t)
+  if isinstance(t, ast.Compare) and len(t.ops) == 1 and isinstance(t.comparators[0], ast.Constant) and t.comparators[0].value == 0 and isinstance(t.ops[0], (ast.Gt, ast.NotEq)):
+    t = t.left
+  if isinstance(t, ast.Call) and unparse(t.func) == 'len' and t.args:
+    t = t.args[0]
+  return isinstance(t, ast.Subscript) and unparse(t.value).endswith('_sequences') and offs(t.slice) == 0
+
+
 from mlmverif.selfcheck import B, OK  # noqa: E402
 
 _F = 'chainables/io.py'
 VARIANTS = [
+    B('shard-start-closed-form-wrong-stride', 'chainables/io.py',
+      '    start, adjusted_interval = self.start, 0\n    for i in range(shard_index + 1):\n      adjusted_interval = interval + 1 if i < remainder else interval\n      start += adjusted_interval if i < shard_index else 0',
+      '    stride = interval + 1 if remainder else interval\n    start = self.start + shard_index * stride\n    adjusted_interval = interval + 1 if shard_index < remainder else interval',
+      'R-C09-1'),
+    OK('shard-start-closed-form-right', 'chainables/io.py',
+       '    start, adjusted_interval = self.start, 0\n    for i in range(shard_index + 1):\n      adjusted_interval = interval + 1 if i < remainder else interval\n      start += adjusted_interval if i < shard_index else 0',
+       '    start = self.start + shard_index * interval + min(shard_index, remainder)\n    adjusted_interval = interval + 1 if shard_index < remainder else interval'),
+    B('middle-subsequence-skipped-by-previous-length', 'utils/iter_utils.py',
+      '      sequences.append(self._index_slice(i_seq))\n',
+      '      if self._seq_idxs[i_seq] > self._seq_idxs[i_seq - 1]:\n        sequences.append(self._index_slice(i_seq))\n', 'R-C09-12'),
+    OK('middle-subsequence-skipped-when-empty', 'utils/iter_utils.py',
+       '      sequences.append(self._index_slice(i_seq))\n',
+       '      if self._seq_idxs[i_seq + 1] > self._seq_idxs[i_seq]:\n        sequences.append(self._index_slice(i_seq))\n'),
     B('remainder-off-by-one', _F,
       '      adjusted_interval = interval + 1 if i < remainder else interval',
       '      adjusted_interval = interval + 1 if i <= remainder else interval', 'R-C09-1'),
